@@ -195,6 +195,51 @@ impl C12 {
                 );
             }
         }
+        // --- a caller that reuses one input buffer: after a compress call that failed for want of space, the same
+        // buffer (same address, same length) holds another file; the output must belong to that other file
+        if f.len() > 8 && needed_c > 4 {
+            let mut inp = Fenced::with_data(f, Place::GuardAfter);
+            let mut rs: u64 = SENTINEL;
+            let mut small = Fenced::new(needed_c / 2, Place::GuardAfter);
+            let st1 = crate::ctx::quiet(|| unsafe {
+                preflate_rs::WrapperCompressZip(inp.ptr(), f.len() as u64, small.ptr(), (needed_c / 2) as u64, &mut rs)
+            });
+            small.fill(0);
+            // other content, same place: change a few bytes in the last quarter
+            let mut g = f.to_vec();
+            for _ in 0..1 + r.usize_below(4) {
+                let i = g.len() - 1 - r.usize_below(g.len() / 4 + 1);
+                g[i] = g[i].wrapping_add(1 + r.below(255) as u8);
+            }
+            unsafe { std::ptr::copy_nonoverlapping(g.as_ptr(), inp.ptr(), g.len()) };
+            let gexp = cur::expand(&g).ok().map(|e| e.len()).unwrap_or(0);
+            let cap2 = zstd::zstd_safe::compress_bound(gexp + gexp / 8 + 4096) + 64;
+            let mut out2 = Fenced::new(cap2, Place::GuardBefore);
+            out2.fill(0xAB);
+            let mut rs2: u64 = SENTINEL;
+            let st2 = crate::ctx::quiet(|| unsafe {
+                preflate_rs::WrapperCompressZip(inp.ptr(), g.len() as u64, out2.ptr(), cap2 as u64, &mut rs2)
+            });
+            ctx.count("evaluations");
+            ctx.count("same_buffer_other_file_probes");
+            if st1 < 0 && st2 == 0 && (rs2 as usize) <= cap2 {
+                let d = call(false, &out2.bytes()[..rs2 as usize], g.len() + 64, Place::GuardAfter);
+                if d.status != 0 || d.out[..] != g[..] {
+                    bad = true;
+                    ctx.violation(
+                        "output_belongs_to_earlier_call",
+                        &format!("output_belongs_to_earlier_call|{}", if d.status == 0 && d.out[..] == f[..] { "previous_file" } else { "other" }),
+                        &format!(
+                            "after an undersized (failed) compress call, a compress call for different content in the same input buffer returned 0 but its output decompresses to {} on {}",
+                            if d.status == 0 && d.out[..] == f[..] { "the PREVIOUS file".to_string() } else { format!("status {} / other bytes", d.status) },
+                            label
+                        ),
+                        json!({"label": label}),
+                        &g,
+                    );
+                }
+            }
+        }
         // --- decompress capacity sweep around |F|
         let needed_d = f.len();
         let mut caps: Vec<usize> = (0..=16).collect();
@@ -326,6 +371,42 @@ impl Monitor for C12 {
                 ctx.count(&format!("garbage_container:status{}", d.status.clamp(-3, 1)));
                 Self::check_common(&d, 64, "decompress (frame around a garbage container)", &format!("container {:02x?}", c), &c, ctx);
             }
+        }
+        if self.tier == Tier::Thorough && k < 2 {
+            // a file without embedded streams whose expanded form is exactly 128 MiB (k = 0) or one byte less:
+            // both are inside the premise "at most 128 MiB" and must round-trip
+            let exp_target: usize = (128 << 20) - k as usize;
+            let n = exp_target - 6; // version byte, tag, 4-byte varint
+            let mut f = wrap::junk_clean(&mut r, 1 << 16);
+            while f.len() < n {
+                let l = (n - f.len()).min(f.len());
+                f.extend_from_within(..l);
+            }
+            ctx.count("files_at_the_128MiB_boundary");
+            let c = call(true, &f, 1 << 20, Place::GuardAfter);
+            ctx.count("evaluations");
+            if c.status == 0 {
+                let d = call(false, &c.out, f.len() + 16, Place::GuardAfter);
+                ctx.count("evaluations");
+                if d.status != 0 || d.out[..] != f[..] {
+                    ctx.violation(
+                        "boundary_128MiB_roundtrip",
+                        "boundary_128MiB_roundtrip",
+                        &format!("a file whose expanded form is {} bytes (<= 128 MiB) does not round-trip: decompress status {}", exp_target, d.status),
+                        json!({"expanded": exp_target}),
+                        &f[..64],
+                    );
+                }
+            } else {
+                ctx.violation(
+                    "boundary_128MiB_roundtrip",
+                    "boundary_128MiB_roundtrip|compress",
+                    &format!("compress of a file whose expanded form is {} bytes returned {} with a 1 MiB output buffer", exp_target, c.status),
+                    json!({"expanded": exp_target}),
+                    &f[..64],
+                );
+            }
+            return;
         }
         let (bytes, label, dense) = match if k % 50 == 7 { 99 } else { k % 10 } {
             99 => {
